@@ -201,6 +201,61 @@ def per_iteration_rule(res, fx):
         raise AnalysisBroken('PER-ITERATION: only %d instances found' % n)
 
 
+def escape_parity_scanners(res, fx, rule='ESCAPE-PARITY', only=None):
+    """the loop-carried escape flags of the scanners in StringMatcher.cpp (all of them, or only the functions whose name matches `only`); returns the number judged"""
+    n_ep = 0
+    for g in sorted((g for g in fx.funcs.values() if g.full and g.file == 'regex/StringMatcher.cpp' and (only is None or re.search(only, g.q))), key=lambda g: g.line):
+        bs = [n for n in g.walk() if n['k'] == 'CharacterLiteral' and n.get('v') == 92]
+        if not bs:
+            continue
+        loops = C.natural_loops(g)
+        bools = {v['d']: v for v in g.walk() if v['k'] == 'VarDecl' and v.type().replace('const ', '').strip() in ('bool', '_Bool')}
+        for d, vd in sorted(bools.items()):
+            asg = [n for n in g.walk() if n['k'] == 'BinaryOperator' and n.get('op') == '=' and A.strip_casts(n['ch'][0]).get('d') == d]
+            vdp = g.pos(vd['i'])
+            # loop-carried: declared outside a loop in which it is assigned and read
+            carried = False
+            for (h, body) in loops:
+                if vdp is not None and vdp[0] not in body and any(P.pos_of(g, a) and P.pos_of(g, a)[0] in body for a in asg) \
+                        and any(u['k'] == 'DeclRefExpr' and u.get('d') == d and P.pos_of(g, u) and P.pos_of(g, u)[0] in body for u in g.walk()):
+                    carried = True
+            if not carried:
+                continue
+
+            def mentions(e, what, depth=0):
+                for x in e.walk():
+                    if what(x):
+                        return True
+                    if x['k'] == 'DeclRefExpr' and x.get('d') in bools and depth < 1 and x.get('d') != d:
+                        iv = bools[x['d']]
+                        if iv['ch'] and mentions(iv['ch'][0], what, depth + 1):
+                            return True
+                        for a2 in g.walk():
+                            if a2['k'] == 'BinaryOperator' and a2.get('op') == '=' and A.strip_casts(a2['ch'][0]).get('d') == x['d'] and mentions(a2['ch'][1], what, depth + 1):
+                                return True
+                return False
+            is_bs = lambda x: x['k'] == 'CharacterLiteral' and x.get('v') == 92
+            is_self = lambda x: x['k'] == 'DeclRefExpr' and x.get('d') == d
+            esc_flag = any(mentions(a['ch'][1], is_bs) for a in asg) or any(
+                a['ch'][1].get('v') in (1, True) and any(is_bs(x) for (c_, t_) in C.guards_of_block(g, P.pos_of(g, a)[0]) for x in g.nodes[c_].walk()) for a in asg) or any(
+                a['ch'][1].get('v') in (1, True) and any(lab == 92 for (cond, labels) in C.switch_guards_of_block(g, P.pos_of(g, a)[0]) for lab in labels) for a in asg)
+            if not esc_flag:
+                continue
+            n_ep += 1
+            ok = True
+            for a in asg:
+                rhs = a['ch'][1]
+                if rhs.get('v') in (0, False):
+                    continue
+                guarded = any(A.strip_casts(P.strip_not(g.nodes[c_])[0]).get('d') == d and (t_ != P.strip_not(g.nodes[c_])[1]) for (c_, t_) in C.guards_of_block(g, P.pos_of(g, a)[0]))
+                if not (mentions(rhs, is_self) or guarded):
+                    ok = False
+            res.ob(rule, g.where(vd), '%s: escape flag `%s` is never raised for an escaped character' % (g.q.split('::')[-1], vd.get('n')), ok, function=g.q, key='%s|%s|%s' % (rule, g.q, vd.get('n')),
+                   message='%s: the flag `%s` is set for every backslash, including one that was itself escaped: in `a\\\\*` the second backslash then "escapes" the live `*`, so the pattern is '
+                           'classified as matching a single value although it matches many' % (g.q, vd.get('n')))
+    return n_ep
+
+
 def run(res, tier):
     from . import sm_state
     fx = common.load_units(res, ['regex/StringMatcher.cpp', 'regex/SegmentedStringMatcher.cpp', 'regex/PathMatcher.cpp'],
@@ -302,56 +357,7 @@ def run(res, tier):
     # ---- round-1 additions: escape handling
     res.rule('ESCAPE-PARITY', 'every scanner in StringMatcher.cpp that carries an "previous character was an escape" flag from one character to the next never raises it for a character that was itself '
                               'escaped (a doubled backslash is a literal backslash and does not escape what follows); the translator rewrites characters only outside escape mode', floor=3)
-    n_ep = 0
-    for g in sorted((g for g in fx.funcs.values() if g.full and g.file == 'regex/StringMatcher.cpp'), key=lambda g: g.line):
-        bs = [n for n in g.walk() if n['k'] == 'CharacterLiteral' and n.get('v') == 92]
-        if not bs:
-            continue
-        loops = C.natural_loops(g)
-        bools = {v['d']: v for v in g.walk() if v['k'] == 'VarDecl' and v.type().replace('const ', '').strip() in ('bool', '_Bool')}
-        for d, vd in sorted(bools.items()):
-            asg = [n for n in g.walk() if n['k'] == 'BinaryOperator' and n.get('op') == '=' and A.strip_casts(n['ch'][0]).get('d') == d]
-            vdp = g.pos(vd['i'])
-            # loop-carried: declared outside a loop in which it is assigned and read
-            carried = False
-            for (h, body) in loops:
-                if vdp is not None and vdp[0] not in body and any(P.pos_of(g, a) and P.pos_of(g, a)[0] in body for a in asg) \
-                        and any(u['k'] == 'DeclRefExpr' and u.get('d') == d and P.pos_of(g, u) and P.pos_of(g, u)[0] in body for u in g.walk()):
-                    carried = True
-            if not carried:
-                continue
-
-            def mentions(e, what, depth=0):
-                for x in e.walk():
-                    if what(x):
-                        return True
-                    if x['k'] == 'DeclRefExpr' and x.get('d') in bools and depth < 1 and x.get('d') != d:
-                        iv = bools[x['d']]
-                        if iv['ch'] and mentions(iv['ch'][0], what, depth + 1):
-                            return True
-                        for a2 in g.walk():
-                            if a2['k'] == 'BinaryOperator' and a2.get('op') == '=' and A.strip_casts(a2['ch'][0]).get('d') == x['d'] and mentions(a2['ch'][1], what, depth + 1):
-                                return True
-                return False
-            is_bs = lambda x: x['k'] == 'CharacterLiteral' and x.get('v') == 92
-            is_self = lambda x: x['k'] == 'DeclRefExpr' and x.get('d') == d
-            esc_flag = any(mentions(a['ch'][1], is_bs) for a in asg) or any(
-                a['ch'][1].get('v') in (1, True) and any(is_bs(x) for (c_, t_) in C.guards_of_block(g, P.pos_of(g, a)[0]) for x in g.nodes[c_].walk()) for a in asg) or any(
-                a['ch'][1].get('v') in (1, True) and any(lab == 92 for (cond, labels) in C.switch_guards_of_block(g, P.pos_of(g, a)[0]) for lab in labels) for a in asg)
-            if not esc_flag:
-                continue
-            n_ep += 1
-            ok = True
-            for a in asg:
-                rhs = a['ch'][1]
-                if rhs.get('v') in (0, False):
-                    continue
-                guarded = any(A.strip_casts(P.strip_not(g.nodes[c_])[0]).get('d') == d and (t_ != P.strip_not(g.nodes[c_])[1]) for (c_, t_) in C.guards_of_block(g, P.pos_of(g, a)[0]))
-                if not (mentions(rhs, is_self) or guarded):
-                    ok = False
-            res.ob('ESCAPE-PARITY', g.where(vd), '%s: escape flag `%s` is never raised for an escaped character' % (g.q.split('::')[-1], vd.get('n')), ok, function=g.q, key='ESCAPE-PARITY|%s|%s' % (g.q, vd.get('n')),
-                   message='%s: the flag `%s` is set for every backslash, including one that was itself escaped: in `a\\\\*` the second backslash then "escapes" the live `*`, so the pattern is '
-                           'classified as matching a single value although it matches many' % (g.q, vd.get('n')))
+    n_ep = escape_parity_scanners(res, fx)
     if n_ep < 3:
         raise AnalysisBroken('ESCAPE-PARITY: only %d escape-flag scanners found in StringMatcher.cpp' % n_ep)
     g = fx.fn1(SM + '::SetPattern')
